@@ -38,6 +38,24 @@ theorem canonical_high_bit_clear {b : List Nat} (h : Canonical b) :
 theorem canonical_ext {a b : List Nat} (ha : Canonical a) (hb : Canonical b) (h : leVal a = leVal b) : a = b :=
   ha.isSc.unique (by rw [h]; exact hb.isSc)
 
+/-! ## `unpack` / `pack` -/
+
+/-- `Scalar::unpack` then `UnpackedScalar::pack` is the identity on ALL 32-byte strings (also non-canonical ones):
+the five limbs hold the full 256-bit integer -/
+theorem pack_unpack (b : List Nat) (hb : EnvIn b (bytes 32)) : pack (unpack b) = b := by
+  obtain ⟨h1, h2, h3⟩ := unpack_any hb
+  obtain ⟨h4, h5⟩ := pack_ok h1 h3
+  obtain ⟨hl, hbb⟩ := (Dalek.Proofs.Bytes51.envIn_bytes 32 b).1 hb
+  obtain ⟨hl', hbb'⟩ := (Dalek.Proofs.Bytes51.envIn_bytes 32 _).1 h4
+  have e : leVal (pack (unpack b)) = leVal b := h5.trans h2
+  exact (Dalek.Proofs.Bytes51.eq_natToLeN_of_leVal (l := pack (unpack b)) hl' hbb' e).trans
+    (Dalek.Proofs.Bytes51.eq_natToLeN_of_leVal hl hbb rfl).symm
+
+/-- `unpack` of a canonical scalar: five limbs `< 2^52` whose radix-2^52 value is the scalar -/
+theorem unpack_spec (b : List Nat) (hb : EnvIn b (bytes 32)) :
+    EnvIn (unpack b) Dalek.Props.C02.Scalar52.limbs52 ∧ Dalek.Proofs.Scalar52.val52 (unpack b) = leVal b :=
+  ⟨(unpack_any hb).1, (unpack_any hb).2.1⟩
+
 /-! ## reduction and the constructors -/
 
 /-- `Scalar::reduce`, for ALL 32-byte inputs (all 2^256): the canonical encoding of `LE(b) mod l` -/
@@ -311,5 +329,38 @@ example : Canonical (natToLeN (l - 1) 32) := by
 example : EnvIn (List.replicate 32 255) (bytes 32) ∧ ¬ leVal (List.replicate 32 255) < l := by decide +kernel
 example : EnvIn (List.replicate 64 255) (bytes 64) := by decide +kernel
 example : ∃ b, Canonical b ∧ leVal b ≠ 0 := ⟨ScalarRs.ONE, ONE_isSc.canonical, by decide +kernel⟩
+
+/-! ## axiom audit -/
+
+/-- info: 'Dalek.Props.C02.Api.reduce_spec' depends on axioms: [propext, Classical.choice, Quot.sound] -/
+#guard_msgs in #print axioms reduce_spec
+/-- info: 'Dalek.Props.C02.Api.from_bytes_mod_order_wide_spec' depends on axioms: [propext, Classical.choice, Quot.sound] -/
+#guard_msgs in #print axioms from_bytes_mod_order_wide_spec
+/-- info: 'Dalek.Props.C02.Api.from_canonical_bytes_spec' depends on axioms: [propext, Classical.choice, Quot.sound] -/
+#guard_msgs in #print axioms from_canonical_bytes_spec
+/-- info: 'Dalek.Props.C02.Api.from_uint_spec' depends on axioms: [propext, Classical.choice, Quot.sound] -/
+#guard_msgs in #print axioms from_uint_spec
+/-- info: 'Dalek.Props.C02.Api.add_spec' depends on axioms: [propext, Classical.choice, Quot.sound] -/
+#guard_msgs in #print axioms add_spec
+/-- info: 'Dalek.Props.C02.Api.sub_spec' depends on axioms: [propext, Classical.choice, Quot.sound] -/
+#guard_msgs in #print axioms sub_spec
+/-- info: 'Dalek.Props.C02.Api.mul_spec' depends on axioms: [propext, Classical.choice, Quot.sound] -/
+#guard_msgs in #print axioms mul_spec
+/-- info: 'Dalek.Props.C02.Api.neg_spec' depends on axioms: [propext, Classical.choice, Quot.sound] -/
+#guard_msgs in #print axioms neg_spec
+/-- info: 'Dalek.Props.C02.Api.neg_zero' depends on axioms: [propext, Classical.choice, Quot.sound] -/
+#guard_msgs in #print axioms neg_zero
+/-- info: 'Dalek.Props.C02.Api.sum_spec' depends on axioms: [propext, Classical.choice, Quot.sound] -/
+#guard_msgs in #print axioms sum_spec
+/-- info: 'Dalek.Props.C02.Api.product_spec' depends on axioms: [propext, Classical.choice, Quot.sound] -/
+#guard_msgs in #print axioms product_spec
+/-- info: 'Dalek.Props.C02.Api.invert_spec' depends on axioms: [propext, Classical.choice, Quot.sound] -/
+#guard_msgs in #print axioms invert_spec
+/-- info: 'Dalek.Props.C02.Api.batch_invert_spec' depends on axioms: [propext, Classical.choice, Quot.sound] -/
+#guard_msgs in #print axioms batch_invert_spec
+/-- info: 'Dalek.Props.C02.Api.canonical_invariant' depends on axioms: [propext, Classical.choice, Quot.sound] -/
+#guard_msgs in #print axioms canonical_invariant
+/-- info: 'Dalek.Props.C02.Api.pack_unpack' depends on axioms: [propext, Classical.choice, Quot.sound] -/
+#guard_msgs in #print axioms pack_unpack
 
 end Dalek.Props.C02.Api
